@@ -27,10 +27,12 @@ def check(ctx):
     # ---- C05-a scaling law
     it = interp(ctx)
     ctx.touch(LAW)
-    ps = returns(it.run_function(LAW))
-    if len(ps) != 1 or not isinstance(ps[0].value, Num):
+    from .common import only
+
+    p0 = only(it.run_function(LAW), LAW, ctx, "C05-a")  # type-guarded fast paths that compute the same term are one result
+    if not isinstance(p0.value, Num):
         raise AnalysisError("_forecast_cum_onephase: expected one numeric path")
-    v = ps[0].value.nf
+    v = p0.value.nf
     t, M, tau = nf.sym("time_on_production"), nf.sym("M"), nf.sym("tau")
     want = nf.mul(M, nf.fn("rf_curve", nf.div(t, tau)))
     ctx.identity("C05-a", LAW + ":law", f.where(), "forecast == M * rf_curve(time / tau) for an arbitrary recovery curve", v, want)
